@@ -114,7 +114,14 @@ def check(case, ctx):
         with rng.seeded(case["seed"]):
             return fn(), None
 
-    gen = RegexGenerator(Random(), max_repeat=case["max_repeat"])
+    if len(case["rng"]) % 4 == 3 and "negated-class" not in feats and not case.get("more"):
+        # custom alphabets, mutually consistent (every digit / word character of "letters" is in the
+        # "digits" / "word" alphabet, so negated categories stay exact): the match must not depend on them
+        gen = RegexGenerator(Random(), max_repeat=case["max_repeat"],
+                             alphabet={"letters": "ab07!_ ~", "digits": "07", "word": "ab07_"})
+        ctx.label("custom-alphabet")
+    else:
+        gen = RegexGenerator(Random(), max_repeat=case["max_repeat"])
     try:
         s, r = run(lambda: gen.generate(p))
     except Exception as e:  # noqa
